@@ -226,19 +226,26 @@ static void b_kmeans(void) {
 /* ---------------------------------------------------------------- MLR based validation on collinear X */
 static void b_mlrcv(void) {
   int which = vx_choose("validation", 2), n = 4 + vx_choose("n-4", 3), kind = vx_choose("X-kind", 3), groups = 1 + vx_choose("groups-1", n), nth = 1 + vx_choose("nthreads-1", 2);
+  int learner = vx_choose("learner", 3);              /* MLR on every design; PLS and LDA only for the single-group request (empty training set) */
   if (which == 0) vx_require(groups == 1);           /* leave-one-out has no group parameter */
+  if (learner != 0) vx_require(which == 1 && groups == 1 && kind == 2);
   matrix *x, *y, *pred; NewMatrix(&x, (size_t)n, 2); NewMatrix(&y, (size_t)n, 1); initMatrix(&pred);
-  for (int i = 0; i < n; i++) { x->data[i][0] = i % 3; x->data[i][1] = kind == 0 ? 2 * x->data[i][0] : kind == 1 ? 1.0 : (double)((i * i) % 4); y->data[i][0] = (double)((i * 5) % 7); }
+  for (int i = 0; i < n; i++) { x->data[i][0] = i % 3; x->data[i][1] = kind == 0 ? 2 * x->data[i][0] : kind == 1 ? 1.0 : (double)((i * i) % 4); y->data[i][0] = learner == 2 ? (double)(i % 2) : (double)((i * 5) % 7); }
   const char *cls = kind == 0 ? "collinear-columns" : kind == 1 ? "constant-column" : "regular";
-  MODELINPUT in = initModelInput(); in.mx = x; in.my = y; in.nlv = 0;
-  arm(which == 0 ? "LeaveOneOut(MLR)" : "BootstrapRandomGroupsCV(MLR)", cls);
-  if (which == 0) LeaveOneOut(&in, _MLR_, pred, NULL, (size_t)nth, NULL, 0);
-  else BootstrapRandomGroupsCV(&in, (size_t)groups, 2, _MLR_, pred, NULL, (size_t)nth, NULL, 0);
+  static const char *LN[3] = {"MLR", "PLS", "LDA"};
+  char api[64]; snprintf(api, sizeof api, "%s(%s)", which == 0 ? "LeaveOneOut" : "BootstrapRandomGroupsCV", LN[learner]);
+  MODELINPUT in = initModelInput(); in.mx = x; in.my = y; in.nlv = learner == 1 ? 1 : 0;
+  arm(api, cls);
+  AlgorithmType at = learner == 0 ? _MLR_ : learner == 1 ? _PLS_ : _LDA_;
+  if (which == 0) LeaveOneOut(&in, at, pred, NULL, (size_t)nth, NULL, 0);
+  else BootstrapRandomGroupsCV(&in, (size_t)groups, 2, at, pred, NULL, (size_t)nth, NULL, 0);
   vx_transition(1);
-  char key[128]; snprintf(key, sizeof key, "shape|%s|%s", which == 0 ? "LeaveOneOut(MLR)" : "BootstrapRandomGroupsCV(MLR)", cls);
-  vx_check((int)pred->row == n && pred->col == 1, key, "n=%d groups=%d: prediction matrix is %zux%zu", n, groups, pred->row, pred->col);
-  if (kind == 2 && which == 0) { snprintf(key, sizeof key, "finite|LeaveOneOut(MLR)|%s", cls); vx_check(hm_allfinite(pred), key, "n=%d: prediction of a regular problem is not finite", n); }
-  vx_outcome(hm_hash(pred, (uint64_t)(which * 100 + n * 10 + kind)));
+  char key[128]; snprintf(key, sizeof key, "shape|%s|%s", api, cls);
+  /* a single group leaves no object to train on: the routine may refuse (output untouched) or return one row per object */
+  int refused = which == 1 && groups == 1 && pred->row == 0;
+  vx_check(refused || ((int)pred->row == n && pred->col == 1), key, "n=%d groups=%d: prediction matrix is %zux%zu", n, groups, pred->row, pred->col);
+  if (kind == 2 && which == 0) { snprintf(key, sizeof key, "finite|%s|%s", api, cls); vx_check(hm_allfinite(pred), key, "n=%d: prediction of a regular problem is not finite", n); }
+  vx_outcome(hm_hash(pred, (uint64_t)(which * 100 + n * 10 + kind + 1000 * learner)));
   DelMatrix(&pred); DelMatrix(&x); DelMatrix(&y);
 }
 
@@ -285,7 +292,7 @@ static void body(void) {
 }
 
 int main(int argc, char **argv) {
-  vx_describe("alphabet", "PCA: every matrix over {0,1,2} of shape 2x2, 3x2, 2x3, 3x3 x scaling {-1,0,1} x npc 1..cols+2 x {exact, 3 indexed 2^-20 perturbations (3x3: thorough only)}; PLS2: orthogonal integer X (4 or 8 rows, 2-3 columns, 4 column scalings) with 2 responses Y = X B for every B over {-1,0,1}^(3x2), nlv 1..3, scaling {-1,0}; PLS: every X over {0,1,2} of shape 3x2 (thorough: + 4x2) x every y in {0,1}^n x nlv 1..3 x scaling {0,1}; CPCA: 2 blocks of every 3x1 / 3x2 matrix over {0,1} x scaling {0,1} x npc 1..3; KMeans: every multiset of <= 5 points from a 3-point lattice x k 1..4 x 4 initialisers x 2 seeds; MLR LOO / bootstrap validation on collinear, constant-column and regular X, every group count 1..n; Nelder-Mead on constant, linear, |x| and quadratic objectives, zero and non-zero steps, 0/10/2000 iterations");
+  vx_describe("alphabet", "PCA: every matrix over {0,1,2} of shape 2x2, 3x2, 2x3, 3x3 x scaling {-1,0,1} x npc 1..cols+2 x {exact, 3 indexed 2^-20 perturbations (3x3: thorough only)}; PLS2: orthogonal integer X (4 or 8 rows, 2-3 columns, 4 column scalings) with 2 responses Y = X B for every B over {-1,0,1}^(3x2), nlv 1..3, scaling {-1,0}; PLS: every X over {0,1,2} of shape 3x2 (thorough: + 4x2) x every y in {0,1}^n x nlv 1..3 x scaling {0,1}; CPCA: 2 blocks of every 3x1 / 3x2 matrix over {0,1} x scaling {0,1} x npc 1..3; KMeans: every multiset of <= 5 points from a 3-point lattice x k 1..4 x 4 initialisers x 2 seeds; MLR LOO / bootstrap validation on collinear, constant-column and regular X, every group count 1..n (and PLS, LDA for the single-group request); Nelder-Mead on constant, linear, |x| and quadratic objectives, zero and non-zero steps, 0/10/2000 iterations");
   vx_describe("oracle", "the call returns before the iteration tick ceiling (1e5 kernel calls; converging fits of these sizes need < 1e4); components up to the numerical rank (singular value^2 > 1e-9 of total) are finite, orthonormal, residual-orthogonal; explained variance beyond the rank is 0 and never NaN");
   vx_set_shard_depth(3);
   vx_set_dev_bound(1, 1);
